@@ -441,6 +441,14 @@ func c09ChainTTL(w *W) {
 	d := 1 + w.Choose(simrt.SShape, 3)
 	tran := w.simFallback([]string{"inproc", "sim", "tcp", "ipc"}[w.Choose(simrt.SShape, 4)])
 	ttls := []int{1, 2, 3, 4, 8}
+	if w.Choose(simrt.SShape, 6) == 0 {
+		// a chain longer than the default hop limit admits, with limits raised
+		// to match: routing headers grow past eight words and still come back
+		d = 8 + w.Choose(simrt.SShape, 4)
+		ttls = []int{12, 16, 40, 255}
+		w.SetShape("long_chain", true)
+		w.Probe("chain-longer-than-default-hop-limit")
+	}
 	pick := func() int { return ttls[w.Choose(simrt.SShape, len(ttls))] }
 	w.SetShape("family", fam.name)
 	w.SetShape("devices", d)
